@@ -51,6 +51,11 @@ def pair_stem(nm):
 
 
 def run(fb, rep, tier):
+    _run(fb, rep, tier)
+    owning_vectors(fb, rep)
+
+
+def _run(fb, rep, tier):
     rep.extra['explanation'] = EXPLANATION
     fs = [f for f in fb.funcs.values() if f.file.endswith(IFACE) and f.externc]
     fs.sort(key=lambda f: f.line)
@@ -364,3 +369,26 @@ def strings(fb, rep, f):
                 lenvar = render(a.kids[0])
         if news and lenvar:
             rep.check(all(lenvar in render(x) for nn in news for x in nn.kids[:1]), 'R20.4', '%s|new char[%s]' % (f.short, lenvar), '%s:%d' % (f.file, news[0].l), 'buffer sized by ' + lenvar, 'buffer is not sized by ' + lenvar)
+
+
+def owning_vectors(fb, rep):
+    """R20.5: SVectorBase is a view without storage of its own (its memory is handed to it by a DSVector / SVSet).  A local SVectorBase
+    that was default-constructed must never be the target of an assignment: there is nowhere to copy to."""
+    rep.rule('R20.5', 'no default-constructed (storage-less) SVectorBase local is assigned to; vector locals that receive data own their memory', floor=4)
+    k = 0
+    for f in fb.funcs.values():
+        if not (f.file.endswith(IFACE) or f.name.startswith('soplex::SoPlexBase<double>::')) or not f.nodes:
+            continue
+        for d in f.nodes:
+            if d.k != 'VarDecl' or not re.match(r'^(soplex::)?(D?SVectorBase<.*>|D?SVector(Real|Rational)?|DSVector)$', (d.t or '').replace('const ', '')):
+                continue
+            asg = [n for n in f.nodes if n.k == 'CXXOperatorCallExpr' and n.o == '=' and n.args() and strip(n.args()[0]).k == 'DeclRefExpr' and strip(n.args()[0]).u == d.u]
+            if not asg:
+                continue
+            k += 1
+            plain = re.match(r'^(soplex::)?(SVectorBase<.*>|SVector(Real|Rational)?)$', (d.t or '').replace('const ', '')) is not None
+            noinit = not d.c or (d.kids and d.kids[0].k == 'CXXConstructExpr' and all(a.k == 'CXXDefaultArgExpr' for a in d.kids[0].args()))
+            rep.check(not (plain and noinit), 'R20.5', '%s|%s %s' % (f.short, d.t.replace('soplex::', '')[:30], d.n), '%s:%d' % (f.file, asg[0].l), 'the target owns its memory (%s)' % d.t.replace('soplex::', '')[:30],
+                      '%s is a default-constructed %s, which has no storage, and is assigned to at line %d: the copy has nowhere to go (assertion max() >= size, wild write without it)' % (d.n, d.t.replace('soplex::', ''), asg[0].l))
+    if k < 4:
+        raise AnalysisBroken('R20.5: only %d assigned vector locals found' % k)
